@@ -1067,6 +1067,15 @@ def _gen_ev2(ctx):
                 for dt, dl in ((0, l), (NOLANG, NOLANG)):
                     ctx.run("ev2_decode", [dt, dl, ws], "hash-valid last=%s" % last)
                     ctx.run("ev2_decode_either", [dt, dl, ws], "hash-valid last=%s" % last)
+        # near-miss version hashes: the first 8 (or 4) bits agree with a version prefix, the rest does not --
+        # must be refused by the any-type decoder / validator as well as by every typed one
+        for near in ("103", "10f", "10" + rng.choice("456789abcde"), "00", "02", "11"):
+            ws = _find_ev2_phrase(rng, E2_B39[l], 12, near)
+            if ws is None:
+                continue
+            ctx.run("ev2_decode", [NOLANG, NOLANG, ws], "near-prefix " + near)
+            ctx.run("ev2_is_valid", [NOLANG, NOLANG, ws], "near-prefix " + near)
+            ctx.run("ev2_decode", [rng.randrange(4), l, ws], "near-prefix " + near)
         # a BIP-39 language the encoder does not offer: accepted under automatic detection
     ws = _find_ev2_phrase(rng, B39L.index(Bip39Languages.FRENCH), 12, "01")
     if ws:
